@@ -14,6 +14,6 @@ CHECKS['C10'] = {
         unit('loader', 'arvados', '^TestVerifC10', {'shards': 6, 'checks': 600}, {'shards': 8, 'checks': 40000, 'timeout': 2400}, crash_is_violation=True),
         unit('fuzzloader', 'arvados', None, {'shards': 1}, {'shards': 1, 'fuzztime': 150, 'parallel': 8}, kind='gofuzz', rapid=False, fuzz='FuzzVerifC10Loader'),
         unit('fuzzmanifest', 'manifest', None, {'shards': 1}, {'shards': 1, 'fuzztime': 150, 'parallel': 8}, kind='gofuzz', rapid=False, fuzz='FuzzVerifC10Manifest'),
-        unit('python', 'py', None, {'shards': 2, 'checks': 1500}, {'shards': 8, 'checks': 40000, 'timeout': 2400}, kind='python', rapid=False, script='py/c10_ranges.py'),
+        unit('python', 'py', None, {'shards': 2, 'checks': 1500}, {'shards': 8, 'checks': 12000, 'timeout': 2400}, kind='python', rapid=False, script='py/c10_ranges.py'),
     ],
 }
